@@ -149,6 +149,36 @@ def _scan():
     return found
 
 
+def ambient_state():
+    """What later calls in the same process silently depend on and a library call has no business changing: numpy's floating point error
+    handling and print options, the working directory, the recursion limit, the warnings filters, logging levels, the decimal context, gc."""
+    import decimal
+    import gc
+    import locale
+    import logging
+    import warnings
+
+    import numpy as np
+
+    try:
+        cwd = os.getcwd()
+    except OSError:
+        cwd = None
+    return {"numpy.geterr": dict(np.geterr()), "numpy.printoptions": {k: repr(v) for k, v in np.get_printoptions().items()}, "cwd": cwd,
+            "recursionlimit": sys.getrecursionlimit(), "warnings.filters": [repr(f) for f in warnings.filters], "logging.root.level": logging.getLogger().level,
+            "logging.disable": logging.root.manager.disable, "decimal.prec": decimal.getcontext().prec, "gc.enabled": gc.isenabled(),
+            "locale": locale.setlocale(locale.LC_ALL), "TZ": os.environ.get("TZ"), "stdout": id(sys.stdout), "stderr": id(sys.stderr), "excepthook": id(sys.excepthook)}
+
+
+def restore_ambient(state):
+    import numpy as np
+
+    np.seterr(**state["numpy.geterr"])
+    if state["cwd"]:
+        os.chdir(state["cwd"])
+    sys.setrecursionlimit(state["recursionlimit"])
+
+
 def reset_library_state():
     global _pristine
     if _pristine is None:
